@@ -165,10 +165,14 @@ pub fn validate_and_iter<T>(
         let (head, tail) = buffer.split_at_mut(chunk_size);
         buffer = tail;
 
+        #[cfg(feature = "verif_hooks")]
+        crate::verif_hooks::chunk_point(1, 12);
         chunk_fn(head, scratch);
     }
 
     // We have a remainder if there's still data in the buffers -- in which case we want to indicate to the caller that there was an unwanted remainder
+    #[cfg(feature = "verif_hooks")]
+    crate::verif_hooks::sched_point(11);
     if buffer.len() == 0 {
         Ok(())
     } else {
@@ -190,10 +194,16 @@ pub fn validate_and_iter_unroll2x<T>(
         let (head, tail) = buffer.split_at_mut(chunk_size * 2);
         buffer = tail;
 
+        #[cfg(feature = "verif_hooks")]
+        crate::verif_hooks::chunk_point(2, 10);
         chunk2x_fn(head);
     }
 
+    #[cfg(feature = "verif_hooks")]
+    crate::verif_hooks::sched_point(12);
     if buffer.len() == chunk_size {
+        #[cfg(feature = "verif_hooks")]
+        crate::verif_hooks::chunk_point(3, 11);
         chunk_fn(buffer);
         Ok(())
     } else if buffer.len() == 0 {
@@ -234,10 +244,14 @@ pub fn validate_and_zip<T>(
         let (head2, tail2) = buffer2.split_at_mut(chunk_size);
         buffer2 = tail2;
 
+        #[cfg(feature = "verif_hooks")]
+        crate::verif_hooks::chunk_point(4, 12);
         chunk_fn(head1, head2, scratch);
     }
 
     // We have a remainder if the 2 chunks were uneven to start with, or if there's still data in the buffers -- in which case we want to indicate to the caller that there was an unwanted remainder
+    #[cfg(feature = "verif_hooks")]
+    crate::verif_hooks::sched_point(13);
     if buffer1.len() == 0 {
         Ok(())
     } else {
@@ -270,11 +284,17 @@ pub fn validate_and_zip_unroll2x<T>(
         let (head2, tail2) = buffer2.split_at_mut(chunk_size * 2);
         buffer2 = tail2;
 
+        #[cfg(feature = "verif_hooks")]
+        crate::verif_hooks::chunk_point(5, 10);
         chunk2x_fn(head1, head2);
     }
 
     // We have a remainder if the 2 chunks were uneven to start with, or if there's still data in the buffers -- in which case we want to indicate to the caller that there was an unwanted remainder
+    #[cfg(feature = "verif_hooks")]
+    crate::verif_hooks::sched_point(14);
     if buffer1.len() == chunk_size {
+        #[cfg(feature = "verif_hooks")]
+        crate::verif_hooks::chunk_point(6, 11);
         chunk_fn(buffer1, buffer2);
         Ok(())
     } else if buffer1.len() == 0 {
@@ -315,10 +335,14 @@ pub fn validate_and_zip_mut<T>(
         let (head2, tail2) = buffer2.split_at_mut(chunk_size);
         buffer2 = tail2;
 
+        #[cfg(feature = "verif_hooks")]
+        crate::verif_hooks::chunk_point(7, 12);
         chunk_fn(head1, head2, scratch);
     }
 
     // We have a remainder if the 2 chunks were uneven to start with, or if there's still data in the buffers -- in which case we want to indicate to the caller that there was an unwanted remainder
+    #[cfg(feature = "verif_hooks")]
+    crate::verif_hooks::sched_point(15);
     if buffer1.len() == 0 {
         Ok(())
     } else {
@@ -351,11 +375,17 @@ pub fn validate_and_zip_mut_unroll2x<T>(
         let (head2, tail2) = buffer2.split_at_mut(chunk_size * 2);
         buffer2 = tail2;
 
+        #[cfg(feature = "verif_hooks")]
+        crate::verif_hooks::chunk_point(8, 10);
         chunk2x_fn(head1, head2);
     }
 
     // We have a remainder if the 2 chunks were uneven to start with, or if there's still data in the buffers -- in which case we want to indicate to the caller that there was an unwanted remainder
+    #[cfg(feature = "verif_hooks")]
+    crate::verif_hooks::sched_point(16);
     if buffer1.len() == chunk_size {
+        #[cfg(feature = "verif_hooks")]
+        crate::verif_hooks::chunk_point(9, 11);
         chunk_fn(buffer1, buffer2);
         Ok(())
     } else if buffer1.len() == 0 {
